@@ -43,6 +43,10 @@ var c16Kinds = map[string][][2]string{
 	"int":  {{"var", "a"}, {"const", "2"}, {"neg", "-1"}, {"call", "obs(1)"}, {"binary", "a + b"}, {"paren", "(b)"}},
 	"bool": {{"var", "p"}, {"const", "true"}, {"neg", "!q"}, {"call", "obsb(q)"}, {"binary", "p || q"}, {"paren", "(q)"}, {"cmp", "a < b"}},
 	"str":  {{"var", "s"}, {"const", `"k"`}, {"neg", `"-1"`}, {"call", "obss(t)"}, {"binary", "s + t"}, {"paren", "(t)"}},
+	// float64 operands; the parameters f and g run over NaN, +Inf, -Inf, -0.0, 0 and 1
+	"flt": {{"var", "f"}, {"const", "1.0"}, {"neg", "-0.5"}, {"call", "obsf(g)"}, {"binary", "f + g"}, {"paren", "(g)"}},
+	// comparison operators (a hole of this type is an operator, not an operand)
+	"op": {{"lt", "<"}, {"le", "<="}, {"gt", ">"}, {"ge", ">="}, {"eq", "=="}, {"ne", "!="}},
 }
 
 var c16Templates = []c16Template{
@@ -96,6 +100,18 @@ var c16Templates = []c16Template{
 	{"QF1007b", "QF1007", []string{"bool"}, `x := false;; if $0 { x = true };; ret = x`},
 	{"QF1008a", "QF1008", []string{"int"}, `type In struct{ V int };; type Out struct{ In };; o := Out{In{$0}};; ret = o.In.V`},
 	{"QF1011a", "QF1011", []string{"int"}, `var x int = $0;; ret = x`},
+	// float64 operands in every comparison operator: NaN makes !(f < g) differ from f >= g
+	{"QF1001e", "QF1001", []string{"flt", "op"}, `ret = !($0 $1 g && p)`},
+	{"QF1002c", "QF1002", []string{"flt"}, `switch {;; case $0 == 1: ret = 1;; case $0 == 2 || $0 == 0: ret = 2;; default: ret = 3 }`},
+	{"QF1003c", "QF1003", []string{"flt"}, `if $0 == 1 { ret = 1 } else if $0 == 2 || $0 == 0 { ret = 2 } else { ret = 3 }`},
+	{"QF1006d", "QF1006", []string{"flt", "op"}, `i := 0;; for {;; if $0 $1 g { break };; i++;; if i > 2 { break };; };; ret = i`},
+	{"QF1007c", "QF1007", []string{"flt", "op"}, `v := true;; if $0 $1 g { v = false };; ret = v`},
+	{"QF1007d", "QF1007", []string{"flt", "op"}, `v := false;; if $0 $1 g { v = true };; ret = v`},
+	{"QF1007e", "QF1007", []string{"flt", "op"}, `v := true;; if $0 $1 g || p { v = false };; ret = v`},
+	{"S1002e", "S1002", []string{"flt", "op"}, `ret = ($0 $1 g) == false`},
+	{"S1002f", "S1002", []string{"flt", "op"}, `ret = $0 $1 g != true`},
+	{"S1033b", "S1033", []string{"flt"}, `m := map[float64]int{1: 1, 0: 2};; if _, ok := m[$0]; ok { delete(m, $0) };; ret = len(m)`},
+	{"S1036c", "S1036", []string{"flt"}, `m := map[float64]int{1: 1};; if _, ok := m[$0]; ok { m[$0] += 2 } else { m[$0] = 2 };; ret = len(m)`},
 	{"QF1012a", "QF1012", []string{"int", "str"}, `var sb strings.Builder;; sb.WriteString(fmt.Sprintf("%d-%s", $0, $1));; ret = sb.String()`},
 	{"QF1012b", "QF1012", []string{"int"}, `var buf bytes.Buffer;; buf.Write([]byte(fmt.Sprint($0)));; ret = buf.String()`},
 }
@@ -137,9 +153,10 @@ func obsb(b bool) bool     { Log = append(Log, fmt.Sprint("b", b)); return b }
 func obss(s string) string { Log = append(Log, "s"+s); return s }
 func mk(xs ...int) []int   { return xs }
 func dur(i int) time.Duration { return time.Duration(i) }
+func obsf(f float64) float64 { Log = append(Log, fmt.Sprint("f", f)); return f }
 `
 
-const c16Signature = "(a, b int, p, q bool, s, t string) (ret interface{})"
+const c16Signature = "(a, b int, p, q bool, s, t string, f, g float64) (ret interface{})"
 
 type c16Filling struct {
 	Tpl   *c16Template
@@ -469,11 +486,23 @@ const c16Driver = `package main
 
 import (
 	"fmt"
+	"math"
 	"os"
 	"strings"
 )
 
-type fn = func(a, b int, p, q bool, s, t string) interface{}
+type fn = func(a, b int, p, q bool, s, t string, f, g float64) interface{}
+
+// the float inputs are a function of (a, p) and (b, q): all 36 pairs over NaN, +Inf, -Inf, -0.0, 0, 1 occur
+var fv = []float64{math.NaN(), math.Inf(1), math.Inf(-1), math.Copysign(0, -1), 0, 1}
+
+func fl(i int, b bool) float64 {
+	k := i + 1
+	if b {
+		k += 4
+	}
+	return fv[k%6]
+}
 
 type pair struct {
 	name string
@@ -488,14 +517,14 @@ func class(e interface{}) string {
 	return s
 }
 
-func call(f fn, a, b int, p, q bool, s, t string) (kind, val, log string) {
+func call(f fn, a, b int, p, q bool, s, t string, x, y float64) (kind, val, log string) {
 	Log = nil
 	defer func() {
 		if e := recover(); e != nil {
 			kind, val, log = "panic", class(e), fmt.Sprint(Log)
 		}
 	}()
-	r := f(a, b, p, q, s, t)
+	r := f(a, b, p, q, s, t, x, y)
 	return "ret", fmt.Sprintf("%#v", r), fmt.Sprint(Log)
 }
 
@@ -513,8 +542,8 @@ func main() {
 						for _, s := range strs {
 							for _, t := range strs {
 								inputs++
-								k1, v1, l1 := call(pr.o, a, b, p, q, s, t)
-								k2, v2, l2 := call(pr.n, a, b, p, q, s, t)
+								k1, v1, l1 := call(pr.o, a, b, p, q, s, t, fl(a, p), fl(b, q))
+								k2, v2, l2 := call(pr.n, a, b, p, q, s, t, fl(a, p), fl(b, q))
 								if k1 == k2 && v1 == v2 && l1 == l2 {
 									continue
 								}
@@ -534,7 +563,7 @@ func main() {
 									case v1 == v2:
 										cl = "effects"
 									}
-									fmt.Fprintf(w, "DIFF\t%s\t%s\ta=%d,b=%d,p=%v,q=%v,s=%q,t=%q\t%s %s log=%s\t%s %s log=%s\n", pr.name, cl, a, b, p, q, s, t, k1, v1, l1, k2, v2, l2)
+									fmt.Fprintf(w, "DIFF\t%s\t%s\ta=%d,b=%d,p=%v,q=%v,s=%q,t=%q,f=%v,g=%v\t%s %s log=%s\t%s %s log=%s\n", pr.name, cl, a, b, p, q, s, t, fl(a, p), fl(b, q), k1, v1, l1, k2, v2, l2)
 								}
 							}
 						}
